@@ -3,7 +3,11 @@
 Extracts (1) the order of the three effects that matter — schema validation of every model file, create_lsp_model, the
 plugin's generate — and (2) the object handed to jsonschema.validate as the schema (the schema file, possibly overlaid
 with constant keys such as {"$ref": "#/definitions/MetaModel", **schema}), read as a schema by x_schema.
-Fail-closed: an unknown call in main, a conditional / swallowed validation, another way of validating -> exit 3.
+Calls of module-level helper functions of __main__.py are FOLLOWED: the helper's body is spliced in at the call (parameters
+replaced by the argument expressions, its locals renamed apart, `return e` at its end bound to the call's target), so the
+order of side effects is that of the program; a list comprehension bound to a name is read as the loop it abbreviates.
+Fail-closed: an unknown call in main, a conditional / swallowed validation, another way of validating, a helper with an
+early return / nested function / star-arguments / recursion -> exit 3.
 usage: x_main.py <out.v> [<info.json>]
 """
 import ast
@@ -59,6 +63,158 @@ def schema_expr(e, env, file_obj):
     raise Reject("schema argument outside grammar: " + U(e))
 
 
+# ------------------------------------------------------------------------------------------------ following helper calls
+class _Subst(ast.NodeTransformer):
+    def __init__(self, mapping):
+        self.mapping = mapping
+
+    def visit_Name(self, node):
+        if node.id in self.mapping:
+            r = self.mapping[node.id]
+            if isinstance(r, str):
+                return ast.copy_location(ast.Name(id=r, ctx=node.ctx), node)
+            if isinstance(node.ctx, ast.Load):
+                return ast.parse(U(r), mode="eval").body
+            raise Reject("a helper assigns to a parameter that was passed an expression: " + node.id)
+        return node
+
+
+def _assigned_names(stmts):
+    out = set()
+    for st in stmts:
+        for n in ast.walk(st):
+            if isinstance(n, ast.Name) and isinstance(n.ctx, (ast.Store, ast.Del)):
+                out.add(n.id)
+            elif isinstance(n, (ast.FunctionDef, ast.AsyncFunctionDef, ast.ClassDef, ast.Lambda, ast.Global, ast.Nonlocal, ast.Yield, ast.YieldFrom, ast.Await)):
+                raise Reject("helper function with a nested function / class / lambda / generator / global")
+            elif isinstance(n, (ast.Import, ast.ImportFrom)):
+                raise Reject("helper function with an import")
+    return out
+
+
+class Inliner:
+    """splices the bodies of module-level helper functions into the statement list of main"""
+
+    def __init__(self, tree, skip):
+        self.helpers = {n.name: n for n in tree.body if isinstance(n, ast.FunctionDef) and n.name not in skip}
+        self.count = 0
+        self.followed = []
+
+    def helper_call(self, e):
+        return isinstance(e, ast.Call) and isinstance(e.func, ast.Name) and e.func.id in self.helpers
+
+    def expand(self, call, target, stack):
+        """statements equivalent to `target = call(...)` (target: a Name id or None)"""
+        fn = self.helpers[call.func.id]
+        if fn.name in stack or len(stack) > 6:
+            raise Reject("recursive helper function " + fn.name)
+        a = fn.args
+        if a.vararg or a.kwarg or a.posonlyargs or fn.decorator_list or any(isinstance(x, ast.Starred) for x in call.args) or any(k.arg is None for k in call.keywords):
+            raise Reject("helper %s: star-arguments / decorators are outside the grammar" % fn.name)
+        params = [x.arg for x in a.args] + [x.arg for x in a.kwonlyargs]
+        bound = {}
+        if len(call.args) > len(a.args):
+            raise Reject("helper %s called with too many arguments" % fn.name)
+        for prm, arg in zip(a.args, call.args):
+            bound[prm.arg] = arg
+        for k in call.keywords:
+            if k.arg not in params or k.arg in bound:
+                raise Reject("helper %s: keyword %s" % (fn.name, k.arg))
+            bound[k.arg] = k.value
+        dflt = dict(zip([x.arg for x in a.args][len(a.args) - len(a.defaults):], a.defaults))
+        dflt.update({x.arg: d for x, d in zip(a.kwonlyargs, a.kw_defaults) if d is not None})
+        pre = []
+        self.count += 1
+        tag = "%s__%d__" % (fn.name, self.count)
+        body = [st for st in fn.body if not (isinstance(st, ast.Expr) and isinstance(st.value, ast.Constant))]
+        ret = None
+        if body and isinstance(body[-1], ast.Return):
+            ret, body = body[-1].value, body[:-1]
+        if any(isinstance(n, ast.Return) for st in body for n in ast.walk(st)):
+            raise Reject("helper %s returns before its last statement" % fn.name)
+        local = _assigned_names(body)
+        mapping = {}
+        for prm in params:
+            if prm not in bound:
+                if prm not in dflt:
+                    raise Reject("helper %s: parameter %s not supplied" % (fn.name, prm))
+                bound[prm] = dflt[prm]
+            arg = bound[prm]
+            if isinstance(arg, ast.Name) and prm not in local:
+                mapping[prm] = arg.id                      # the parameter is another name for the caller's variable
+            elif isinstance(arg, ast.Constant) and prm not in local:
+                mapping[prm] = arg
+            else:                                          # evaluated once, at the call, in argument order
+                pre.append(ast.Assign(targets=[ast.Name(id=tag + prm, ctx=ast.Store())], value=arg, lineno=call.lineno))
+                mapping[prm] = tag + prm
+        for n in local:
+            if n not in mapping:
+                mapping[n] = tag + n
+        if target is not None and isinstance(ret, ast.Name) and ret.id in local and ret.id not in params:
+            mapping[ret.id] = target                       # the returned local IS the caller's variable
+            tail = []
+        elif ret is not None and target is not None:
+            tail = [ast.Assign(targets=[ast.Name(id=target, ctx=ast.Store())], value=ret, lineno=call.lineno)]
+        elif ret is not None:
+            tail = [ast.Expr(value=ret, lineno=call.lineno)]
+        elif target is not None:
+            tail = [ast.Assign(targets=[ast.Name(id=target, ctx=ast.Store())], value=ast.Constant(value=None), lineno=call.lineno)]
+        else:
+            tail = []
+        sub = _Subst(mapping)
+        new = [ast.fix_missing_locations(sub.visit(ast.parse(U(st)).body[0])) for st in body + tail]
+        self.followed.append(fn.name)
+        return [ast.fix_missing_locations(x) for x in pre] + self.block(new, stack + [fn.name])
+
+    def block(self, stmts, stack=()):
+        stack = list(stack)
+        out = []
+        for st in stmts:
+            # name = [elt for x in it]   ==   name = []; for x in it: name.append(elt)
+            if (isinstance(st, (ast.Assign, ast.AnnAssign)) and isinstance(st.value, ast.ListComp) and len(st.value.generators) == 1
+                    and not st.value.generators[0].ifs and not st.value.generators[0].is_async
+                    and any(self.helper_call(c) or U(c.func) == "jsonschema.validate" for c in ast.walk(st.value) if isinstance(c, ast.Call))):
+                tgt = st.targets[0] if isinstance(st, ast.Assign) and len(st.targets) == 1 else getattr(st, "target", None)
+                if not isinstance(tgt, ast.Name):
+                    raise Reject("comprehension bound to something else than a name: " + U(st)[:80])
+                g = st.value.generators[0]
+                loop = ast.parse("%s = []\nfor %s in %s:\n    %s.append(%s)" % (tgt.id, U(g.target), U(g.iter), tgt.id, U(st.value.elt))).body
+                out += self.block(loop, stack)
+                continue
+            if isinstance(st, (ast.Assign, ast.AnnAssign)) and self.helper_call(st.value):
+                tgt = st.targets[0] if isinstance(st, ast.Assign) and len(st.targets) == 1 else getattr(st, "target", None)
+                if not isinstance(tgt, ast.Name):
+                    raise Reject("helper result bound to something else than a name: " + U(st)[:80])
+                out += self.expand(st.value, tgt.id, stack)
+                continue
+            if isinstance(st, ast.Expr) and self.helper_call(st.value):
+                out += self.expand(st.value, None, stack)
+                continue
+            # xs.append(helper(...))   ==   t = helper(...); xs.append(t)
+            if (isinstance(st, ast.Expr) and isinstance(st.value, ast.Call) and isinstance(st.value.func, ast.Attribute) and st.value.func.attr == "append"
+                    and isinstance(st.value.func.value, ast.Name) and len(st.value.args) == 1 and not st.value.keywords and self.helper_call(st.value.args[0])):
+                self.count += 1
+                t = "appended__%d__" % self.count
+                out += self.expand(st.value.args[0], t, stack)
+                out.append(ast.parse("%s.append(%s)" % (st.value.func.value.id, t)).body[0])
+                continue
+            for fld in ("body", "orelse", "finalbody"):
+                if isinstance(getattr(st, fld, None), list) and not isinstance(st, (ast.FunctionDef, ast.ClassDef)):
+                    setattr(st, fld, self.block(getattr(st, fld), stack))
+            if isinstance(st, ast.Try):
+                for h in st.handlers:
+                    h.body = self.block(h.body, stack)
+            for c in ast.walk(st):        # the bodies were expanded above: what is left sits inside an expression
+                if self.helper_call(c):
+                    raise Reject("call of helper %s inside an expression (only `x = f(..)`, `f(..)`, `xs.append(f(..))`, `x = [f(..) for ..]` are followed): %s"
+                                 % (c.func.id, U(st)[:100]))
+            out.append(st)
+        return out
+
+
+NOT_FOLLOWED = {"main", "get_parser", "setup_logging", "custom_plugin"}       # their calls are judged by name (HARMLESS)
+
+
 def translate():
     path = os.path.join(REPO, "generator", "__main__.py")
     tree = ast.parse(open(path).read())
@@ -66,19 +222,27 @@ def translate():
     if len(mains) != 1:
         raise Reject("main not found exactly once")
     fn = mains[0]
-    env, effects, state = {}, [], {"models_list": None, "spec": None, "validated_from": None}
+    inl = Inliner(tree, NOT_FOLLOWED)
+    main_body = inl.block([s for s in fn.body if not (isinstance(s, ast.Expr) and isinstance(s.value, ast.Constant))])
+    translate.followed = inl.followed
+    env, effects, state = {}, [], {"models_list": None, "spec": None, "validated_from": None, "unvalidated_appends": set()}
 
     def calls_in(node):
         return [c for c in ast.walk(node) if isinstance(c, ast.Call)]
 
-    def check_calls(node, allowed_extra=()):
+    def check_calls(node, allowed_extra=(), in_validation_loop=False):
         for c in calls_in(node):
             name = U(c.func)
             if name in HARMLESS or name in allowed_extra:
                 continue
             if isinstance(c.func, ast.Attribute) and c.func.attr in ("open", "append") and isinstance(c.func.value, ast.Name):
+                if c.func.attr == "append" and not in_validation_loop:
+                    state["unvalidated_appends"].add(c.func.value.id)      # must not be the list handed to create_lsp_model
                 continue
             raise Reject("unmodelled call in main: " + U(c)[:100])
+        for n in ast.walk(node):
+            if isinstance(n, ast.AugAssign) and isinstance(n.target, ast.Name):
+                state["unvalidated_appends"].add(n.target.id)
 
     def bind(st):
         if isinstance(st, ast.Assign) and len(st.targets) == 1 and isinstance(st.targets[0], ast.Name):
@@ -117,27 +281,53 @@ def translate():
                 if not isinstance(st.target, ast.Name):
                     raise Reject("validation loop target")
                 loopvar, it = st.target.id, U(st.iter)
+                if not isinstance(st.iter, ast.Name):
+                    raise Reject("validation loop iterates over " + it)
                 loaded = {loopvar} if it == state["models_list"] else set()
                 vcall = None
+
+                def load_stmt(b, src):
+                    """X = json.load(<src>)  ->  X"""
+                    if (isinstance(b, ast.Assign) and len(b.targets) == 1 and isinstance(b.targets[0], ast.Name) and isinstance(b.value, ast.Call)
+                            and U(b.value.func) == "json.load" and len(b.value.args) == 1 and not b.value.keywords and src(b.value.args[0])):
+                        return b.targets[0].id
+                    return None
+
+                def opens_loopvar(e):
+                    return (isinstance(e, ast.Call) and isinstance(e.func, ast.Attribute) and e.func.attr == "open" and isinstance(e.func.value, ast.Name)
+                            and e.func.value.id == loopvar)
                 for b in st.body:
-                    check_calls(b, ("jsonschema.validate",))
-                    if isinstance(b, ast.Assign) and len(b.targets) == 1 and isinstance(b.targets[0], ast.Name) and U(b.value).startswith("json.load(" + loopvar + ".open("):
-                        loaded.add(b.targets[0].id)
+                    check_calls(b, ("jsonschema.validate",), in_validation_loop=True)
+                    if load_stmt(b, opens_loopvar):
+                        loaded.add(load_stmt(b, opens_loopvar))
+                    elif (isinstance(b, ast.With) and len(b.items) == 1 and opens_loopvar(b.items[0].context_expr) and isinstance(b.items[0].optional_vars, ast.Name)
+                          and all(load_stmt(x, lambda e: isinstance(e, ast.Name) and e.id == b.items[0].optional_vars.id)
+                                  or (isinstance(x, ast.Expr) and isinstance(x.value, ast.Call) and U(x.value.func).startswith("LOGGER.")) for x in b.body)):
+                        # with model_file.open("rb") as stream: X = json.load(stream)
+                        for x in b.body:
+                            n = load_stmt(x, lambda e: isinstance(e, ast.Name) and e.id == b.items[0].optional_vars.id)
+                            if n:
+                                loaded.add(n)
                     elif isinstance(b, ast.Expr) and isinstance(b.value, ast.Call) and U(b.value.func) == "jsonschema.validate":
                         vcall = b.value
                         if not (len(vcall.args) == 2 and not vcall.keywords and isinstance(vcall.args[0], ast.Name) and vcall.args[0].id in loaded):
                             raise Reject("jsonschema.validate arguments outside grammar: " + U(vcall))
+                        validated = vcall.args[0].id
                     elif (isinstance(b, ast.Expr) and isinstance(b.value, ast.Call) and isinstance(b.value.func, ast.Attribute) and b.value.func.attr == "append"
                           and len(b.value.args) == 1 and isinstance(b.value.args[0], ast.Name) and b.value.args[0].id in loaded):
                         if state["models_list"] not in (None, U(b.value.func.value)):
                             raise Reject("two model lists")
+                        if vcall is None or b.value.args[0].id != validated:
+                            raise Reject("a model is appended before / without being validated: " + U(b))
                         state["models_list"] = U(b.value.func.value)
                     elif isinstance(b, ast.Expr) and isinstance(b.value, ast.Call) and U(b.value.func).startswith("LOGGER."):
                         pass
                     else:
                         raise Reject("statement in the validation loop outside grammar: " + U(b)[:100])
-                if it not in ("model_files", state["models_list"]):
-                    raise Reject("validation loop iterates over " + it)
+                if vcall is None:
+                    raise Reject("validation loop without a plain jsonschema.validate statement")
+                if it == state["models_list"]:
+                    state["unvalidated_appends"].discard(it)       # everything loaded so far is validated by this loop
                 state["schema_arg"] = vcall.args[1]
                 state["schema_env"] = dict(env)
                 effects.append("EValidate")
@@ -148,6 +338,7 @@ def translate():
                     check_calls(b)
                     if (isinstance(b, ast.Expr) and isinstance(b.value, ast.Call) and isinstance(b.value.func, ast.Attribute) and b.value.func.attr == "append"):
                         state["models_list"] = U(b.value.func.value)
+                        state["unvalidated_appends"].add(state["models_list"])
                 continue
             if "model.create_lsp_model" in cs or "create_lsp_model" in cs:
                 if conditional or in_loop:
@@ -156,6 +347,9 @@ def translate():
                       and len(st.value.args) == 1 and U(st.value.args[0]) == state["models_list"])
                 if not ok:
                     raise Reject("create_lsp_model call outside grammar: " + U(st)[:100])
+                if "EValidate" in effects and state["models_list"] in state["unvalidated_appends"]:
+                    # the effect list would claim "validated before created" although some document bypasses the validation
+                    raise Reject("the list handed to create_lsp_model is extended outside the validation loop")
                 tgt = st.targets[0] if isinstance(st, ast.Assign) else st.target
                 state["spec"] = U(tgt)
                 effects.append("ECreate")
@@ -172,12 +366,15 @@ def translate():
                 continue
             if isinstance(st, (ast.For, ast.While, ast.With)):
                 raise Reject("loop/with outside grammar in main: " + U(st)[:80])
+            if state["models_list"] is not None and any(isinstance(n, ast.Name) and isinstance(n.ctx, (ast.Store, ast.Del)) and n.id == state["models_list"]
+                                                        for n in ast.walk(st)):
+                raise Reject("the list of validated models is re-bound after the validation loop: " + U(st)[:80])
             if isinstance(st, (ast.Return, ast.Raise)) and not conditional:
                 raise Reject("unconditional return/raise in main")
             check_calls(st)
             bind(st)
 
-    walk([s for s in fn.body if not (isinstance(s, ast.Expr) and isinstance(s.value, ast.Constant))])
+    walk(main_body)
     if "schema_arg" not in state:
         root_obj, root_term = None, "SAny"      # no validation at all
     else:
